@@ -2704,14 +2704,14 @@ def corpus_cases(ctx):
     out.append({"name": "corpus-regress-b700765-shuffle-k-huge", "expect_ok": True,
                 "ops": [op_file("in0", ">s1\nACGTACGTAC\n"), op_run("esl-shuffle", ["-k", "2147483647", "-S", "in0"])]})
     # round 6: the --small tools on an INTERLEAVED Stockholm file must stop with the 'two seqs named' / 'same name' diagnostic (esl-reformat printed a
-    # non-terminated token with %s: heap over-read; esl-alimanip ended silently with exit 0 and a truncated alignment; patch C13-small-interleaved-input)
+    # non-terminated token with %s: heap over-read; esl-alimanip ended silently with exit 0 and a truncated alignment; repaired in 6d1c4fc)
     il_ = "# STOCKHOLM 1.0\n\ns1 ACGU\ns2 AC-U\n\ns1 GGCC\ns2 GG-C\n//\n"
     for k_, (t_, a_, kk_) in enumerate([("esl-reformat", ["--small", "--informat", "pfam", "pfam", "il.sto"], None),
                                         ("esl-reformat", ["--small", "--informat", "pfam", "afa", "il.sto"], None),
-                                        ("esl-alimanip", ["--small", "--seq-k", "list", "--rna", "--informat", "pfam", "il.sto"], "C13:esl-alimanip:small-parse-error-silent"),
+                                        ("esl-alimanip", ["--small", "--seq-k", "list", "--rna", "--informat", "pfam", "il.sto"], None),
                                         ("esl-alimask", ["--small", "-t", "--rna", "--informat", "pfam", "il.sto", "1-2"], None),
                                         ("esl-alistat", ["--small", "--rna", "--informat", "pfam", "il.sto"], None)]):
-        c_ = {"name": "corpus-small-interleaved-%d" % k_, "expect_err": True, "ops": [op_file("il.sto", il_), op_file("list", "s1\n"), op_run(t_, a_)]}
+        c_ = {"name": "corpus-regress-6d1c4fc-small-interleaved-%d" % k_, "expect_err": True, "ops": [op_file("il.sto", il_), op_file("list", "s1\n"), op_run(t_, a_)]}
         if kk_: c_["known_key"] = kk_
         out.append(c_)
     # round 6: esl-reformat --small pfam with a WUSS option: inverted #=GR / SS tests ('bad #=GR line' on any #=GF line); repaired in 2415140
